@@ -102,6 +102,9 @@ pub struct SimInner {
     pub svc: u8,
     pub inst: u32,
     ready: bool,
+    /// clones may need a warm-up before their first Ready (a real timer, so virtual time passes)
+    warm_at: Option<tokio::time::Instant>,
+    warm_sleep: Option<Pin<Box<tokio::time::Sleep>>>,
 }
 
 impl SimInner {
@@ -115,6 +118,8 @@ impl SimInner {
             svc,
             inst,
             ready: false,
+            warm_at: None,
+            warm_sleep: None,
         }
     }
 }
@@ -122,7 +127,12 @@ impl SimInner {
 impl Clone for SimInner {
     fn clone(&self) -> Self {
         // A clone is a new instance: readiness observed on the original does not carry over.
-        SimInner::new(self.svc)
+        let mut c = SimInner::new(self.svc);
+        let warm = world::with(|w| w.script.clone_warmup_ms.get(&self.svc).copied().unwrap_or(0));
+        if warm > 0 && !world::with(|w| w.ended) {
+            c.warm_at = Some(tokio::time::Instant::now() + Duration::from_millis(warm));
+        }
+        c
     }
 }
 
@@ -167,6 +177,17 @@ impl tower::Service<Req> for SimInner {
 
     fn poll_ready(&mut self, cx: &mut Context<'_>) -> Poll<Result<(), SimErr>> {
         let svc = self.svc;
+        if let Some(at) = self.warm_at {
+            if tokio::time::Instant::now() < at {
+                world::fault("ready_warmup_wait");
+                let sl = self.warm_sleep.get_or_insert_with(|| Box::pin(tokio::time::sleep_until(at)));
+                if sl.as_mut().poll(cx).is_pending() {
+                    return Poll::Pending;
+                }
+            }
+            self.warm_at = None;
+            self.warm_sleep = None;
+        }
         let (strict, res) = world::with(|w| {
             let strict = w.script.strict;
             let n = w.ready_polls.entry(svc).or_insert(0);
